@@ -727,9 +727,12 @@ def make_targets(ns, base, quick, tag):
         # quick: the C++20 build is the one rendered with --target-endianness little (word-sized copies in the bitspan getters and
         # setters: a type-punned or misaligned access there is visible to -fsanitize=alignment at -O0 only); thorough adds both
         le = quick and std == "c++20"
-        specs.append(C04CppTarget(ns, base / std.replace("+", "p"), std=std, asserts=False, cxx="g++", cxxflags=SAN,
+        # the C++17 build is generated with --enable-serialization-asserts and NUNAVUT_ASSERT=assert: an assertion of the generated
+        # code that a LEGAL input (or any object) can make false aborts the process instead of returning (totality)
+        asr = std == "c++17"
+        specs.append(C04CppTarget(ns, base / std.replace("+", "p"), std=std, asserts=asr, cxx="g++", cxxflags=SAN,
                                   extra_nnvg=(["--target-endianness", "little"] if le else []),
-                                  parts=6 if quick else 8, tag=f"cpp/{std}" + ("/little" if le else "")))
+                                  parts=6 if quick else 8, tag=f"cpp/{std}" + ("/little" if le else "") + ("+asserts" if asr else "")))
     if not quick:
         specs.append(C04CppTarget(ns, base / "cpp14_le", std="c++14", asserts=False, cxx="g++", cxxflags=SAN,
                                   extra_nnvg=["--target-endianness", "little"], parts=8, tag="cpp/c++14/little"))
@@ -779,6 +782,34 @@ def max_options(e):
     if k == "d":
         return max_options(e[2])
     return 1
+
+
+def ser_inflated(e, v, surplus):
+    """
+    codec_ref.ser, but every NESTED delimited object carries `surplus` bytes more than its extent and its delimiter header
+    announces them (all bytes present): what a sender with a newer, longer minor version of the nested type emits.  A legal
+    input: the receiver reads what it knows and skips the rest.
+    """
+    orig = codec_ref._ser
+
+    def patched(e2, v2, w):
+        if e2[0] == "d":
+            w.align(8)
+            sub = codec_ref._W()
+            patched(e2[2], v2, sub)
+            body = sub.bytes()
+            body += bytes((0xC0 + i) & 0xFF for i in range(e2[1] // 8 + surplus - len(body)))
+            w.put(len(body), 32)
+            w.put(int.from_bytes(body, "little"), 8 * len(body))
+        else:
+            orig(e2, v2, w)
+    codec_ref._ser = patched          # the recursion inside codec_ref goes through the module attribute
+    try:
+        w = codec_ref._W()
+        patched(e[2] if e[0] == "d" else e, v, w)
+        return w.bytes()
+    finally:
+        codec_ref._ser = orig
 
 
 def codec_requests(ctx, ns, n_values0, n_invalid0, n_strings0):
@@ -845,6 +876,22 @@ def codec_requests(ctx, ns, n_values0, n_invalid0, n_strings0):
                     ext_enc.append(codec_ref.ser(e, v))
                 except codec_ref.CodecError:
                     pass
+        # nested delimited objects whose header announces MORE than the extent, the bytes present (implicit truncation rule)
+        if has_nested_delim(e):
+            full = []
+            try:
+                full = [extreme_value(e, "max", 0)]     # arrays filled (<= 2 elements): the surplus pushes the total above bit_length_set.max
+            except Exception:
+                pass
+            for v in [x for x, _ in values[:3]] + full:
+                for surplus in (1, 6):
+                    try:
+                        big = ser_inflated(e, v, surplus)
+                    except Exception:
+                        continue
+                    if len(big) <= 4096 and big not in ext_enc:
+                        ext_enc.append(big)
+                        ctx.count("codec_delimiter_header_above_extent")
         strings = dsdlgen.gen_byte_strings(rng, encodings, n_random=6, max_len=min(mx + 9, 300), all_truncations_upto=12)
         if len(strings) > n_strings:
             keep = [b""] + encodings[:3]
